@@ -292,7 +292,12 @@ class TwinsFam(Family):
                         parts.append(",".join(f"r{rng.choice([1, 2, 3, 9, 10, 11, 256, 4294967295])}n{rng.choice([0, 1, 2, 2, 7, 4294967295])}"
                                               for _ in range(rng.randrange(1, 6))))
                 views.append(f"{rng.choice([0, 1, 2, 3, 4, 255, 256, 4294967295])}:{'/'.join(parts)}")
-            ls.append("jsonlit " + ("|".join(views) if views else "."))
+            lit = "|".join(views) if views else "."
+            ls.append("jsonlit " + lit)
+            # two different scenarios through ONE scenario file and the JSON scenario source
+            if len(ls) >= 3 and rng.random() < 0.3:
+                prev = ls[-3].split(" ", 1)[1] if ls[-3].startswith("jsonlit ") else "."
+                ls.append(f"jsonfilelit {prev} {lit}")
         return ls
 
     # ---------------------------------------------------------------- evidence
